@@ -60,4 +60,21 @@ PROPS['C26'] = {
     'technique': 'Lean 4 proof (refinement to the per-module specification) + differential correspondence check',
 }
 
+PROPS['C28'] = {
+    'title': 'Custom sections are preserved and edited exactly',
+    'props_files': ['Orca/Props/C28.lean'],
+    'families': [{'name': 'custom', 'quick_n': 1200, 'thorough_n': 100000}],
+    'rule': '6 base modules x 0-4 custom sections (names incl. duplicates, empty, non-ASCII, producers, known-custom names) inserted at '
+            'random positions between the sections x 0-6 edits (add / delete / overwrite / get_id, in- and out-of-range ids); distinct by '
+            'case line; non-trivial when there is at least one custom section or edit',
+    'trusted': COMMON_TRUST + [
+        'modelled, not verified: wasm-encoder CustomSection framing; the rest-of-module frame is decided per case by comparing wasmprinter text of input and output with custom sections stripped',
+    ],
+    'assumptions': ['a `producers` section, when present, is well-formed (malformed ones are C03)'],
+    'design_ref': 'DESIGN.md section 6, C28',
+    'level_text': 'Lean 4 theorems over the list model of CustomSections (round trip, add, delete, modify, get_id, history); tied to the code by '
+                  'differential runs of random edit histories and an oracle that re-derives the expected section list independently.',
+    'technique': 'Lean 4 proof over a list model + differential correspondence check',
+}
+
 ALL_IDS = ['C%02d' % i for i in range(1, 31)]
